@@ -11,8 +11,8 @@ const SPEC: Spec = Spec {
         "result equality across std / no_std follows from uniqueness of the floor root: both configurations are checked against the same oracle",
         "refint multiplication is trusted; the root oracle is cross-checked against a Python bisection root on a transcript slice",
     ],
-    bounds_quick: "R1 x < 2^14 and |x - 2^64| <= 256 x 15 degrees; R2 r^n, r^n+-1 for 11 bases x 12 degrees while r^n < 2^6000, each with every degree of the list + 1000 + u32::MAX; R3 2^k, 2^k+-1 for every k in 60..=2300 x degrees {2,3,4,5,7,11}; R4 negatives / panics; R6 b^n and b^n-1 for b in {3,2047,65537} x n in {1100,1500,3001} (Newton descents of the order of n steps); R7 Dense(S16,2) + 30 three-digit values x 12 degrees (half-digit alphabet)",
-    bounds_thorough: "R1 x < 2^17 and |x - 2^64| <= 4096; R2 while r^n < 2^12000; R3 every k in 60..=5000; R4; R6 6 bases x 8 degrees up to 6000",
+    bounds_quick: "R8 r^n - d for every r in 2^e + [0,2048), e in {26,32,52,53,54,63,64}, n in {2,3,4,5}, d in 0..=3; R1 x < 2^14 and |x - 2^64| <= 256 x 15 degrees; R2 r^n, r^n+-1 for 11 bases x 12 degrees while r^n < 2^6000, each with every degree of the list + 1000 + u32::MAX; R3 2^k, 2^k+-1 for every k in 60..=2300 x degrees {2,3,4,5,7,11}; R4 negatives / panics; R6 b^n and b^n-1 for b in {3,2047,65537} x n in {1100,1500,3001} (Newton descents of the order of n steps); R7 Dense(S16,2) + 30 three-digit values x 12 degrees (half-digit alphabet)",
+    bounds_thorough: "R8 windows of 65536 roots; R1 x < 2^17 and |x - 2^64| <= 4096; R2 while r^n < 2^12000; R3 every k in 60..=5000; R4; R6 6 bases x 8 degrees up to 6000",
     hang_secs: 120,
     probes: Some(probes),
     max_workers: 16,
@@ -171,6 +171,34 @@ fn body(ctx: &mut Ctx) {
                 }
                 ctx.sample(|| format!("x = {}^{} and +-1 ({} bits) x degrees {:?}", b.to_hex(), n, p.bits(), qdegs));
             }
+        }
+    }
+    // R8: perfect powers minus 0..3 for EVERY root in a window at each floating-point precision edge.  Whether the
+    // Newton descent passes through root+2, root+1 or starts below the root depends on how the f64 (std) or 2^k
+    // (no_std) starting guess rounds for that particular root, so the window is enumerated completely rather than
+    // sampled at a few bases.
+    if ctx.space("R8") {
+        let w = tier.pick(2048u64, 65536u64);
+        let block = 256u64;
+        let mut o = 0u64;
+        for e in [26u64, 32, 52, 53, 54, 63, 64] {
+            for j0 in (0..w).step_by(block as usize) {
+                let take = ctx.mine(o);
+                o += 1;
+                if !take {
+                    continue;
+                }
+                for j in j0..j0 + block {
+                    let r1 = Nat::one().shl(e).add(&Nat::from_u64(j));
+                    for n in [2u32, 3, 4, 5] {
+                        let p = r1.pow(n as u64);
+                        for d in 0..=3u64 {
+                            root_case(ctx, &p.sub(&Nat::from_u64(d)).unwrap(), n);
+                        }
+                    }
+                }
+            }
+            ctx.sample(|| format!("x = r^n - d for every r in 2^{} + [0, {}) x n in {{2,3,4,5}} x d in 0..=3", e, w));
         }
     }
     if ctx.space("R3") {
